@@ -4,16 +4,21 @@ package main
 // several goroutines on one real concurrentStrategy.  Before the repair F02e, Inc wrote the status in two lock
 // sections and a Dec delete in between made it dereference nil while holding the strategy's mutex.
 //   stress-incdec decs=<n> ms=<duration>      answer: ok | panic <where>
+//   stress-arrive max=<m> workers=<n> rounds=<r>   (simultaneous arrivals at max-1)
+//   stress-churn  max=<m> workers=<n> txns=<t>     (admit / in flight / release churn)
 
 import (
 	"context"
 	"fmt"
+	"runtime"
 	"strings"
+	"sync"
 	"sync/atomic"
 	"time"
 
 	lunar_messages "lunar/engine/messages"
 	lunar_context "lunar/engine/streams/lunar-context"
+	public_types "lunar/engine/streams/public-types"
 	quotaresource "lunar/engine/streams/resources/quota"
 	stream_types "lunar/engine/streams/types"
 	context_manager "lunar/toolkit-core/context-manager"
@@ -85,24 +90,241 @@ func stressIncDec(decs int, dur time.Duration) string {
 	return "ok"
 }
 
+type gauge interface {
+	GetQuotaGroupsCounters() map[string]int64
+}
+
+func newStrategy(max int64) (quotaresource.ResourceAdmI, func(), string) {
+	ctx, cancel := context.WithCancel(context.Background())
+	context_manager.Get().WithContext(ctx).SetRealClock()
+	stop := func() {
+		cancel()
+		deadline := time.Now().Add(5 * time.Second)
+		for time.Now().Before(deadline) {
+			if _, t := gcParked(); t == 0 {
+				break
+			}
+			time.Sleep(100 * time.Microsecond)
+		}
+	}
+	cfg := &quotaresource.QuotaConfig{ID: "q", Strategy: &quotaresource.StrategyConfig{
+		Concurrent: &quotaresource.ConcurrentConfig{MaxRequestCount: max, RequestExpirationSec: 600, GCIntervalSec: 600}}}
+	cs, err := quotaresource.NewConcurrentStrategy(cfg, nil)
+	if err != nil {
+		stop()
+		return nil, func() {}, "err:init"
+	}
+	return cs, stop, ""
+}
+
+func apiFor(id string) public_types.APIStreamI {
+	return stream_types.NewRequestAPIStream(lunar_messages.OnRequest{ID: id, SequenceID: id, Method: "GET",
+		URL: host + "/x", Headers: map[string]string{}}, lunar_context.NewMemoryState[[]byte]())
+}
+
+func held(cs quotaresource.ResourceAdmI) int64 {
+	var n int64
+	for _, v := range cs.GetQuotaGroupsCounters() {
+		n += v
+	}
+	return n
+}
+
+// what the limiter processor does for a request
+func limit(cs quotaresource.ResourceAdmI, a public_types.APIStreamI) bool {
+	if err := cs.Inc(a); err != nil {
+		return false
+	}
+	ok, err := cs.Allowed(a)
+	return err == nil && ok
+}
+
+// stress-arrive: the set holds max-1 members; `workers` distinct new transactions arrive at the same instant (start
+// barrier).  Any serial order admits exactly one of them.  answer: ok | exceeded round=<k> admitted=<n> held=<h>
+func stressArrive(max, workers, rounds int) (res string) {
+	defer func() {
+		if r := recover(); r != nil {
+			res = "panic arrive"
+		}
+	}()
+	if runtime.GOMAXPROCS(0) < 4 {
+		defer runtime.GOMAXPROCS(runtime.GOMAXPROCS(4))
+	}
+	cs, stop, e := newStrategy(int64(max))
+	if e != "" {
+		return e
+	}
+	defer stop()
+	for k := 0; k < max-1; k++ {
+		if !limit(cs, apiFor(fmt.Sprintf("t%d", 1000000+k))) {
+			return "err:preload"
+		}
+	}
+	for round := 0; round < rounds; round++ {
+		var admitted atomic.Int64
+		var ready, done sync.WaitGroup
+		start := make(chan struct{})
+		apis := make([]public_types.APIStreamI, workers)
+		for w := 0; w < workers; w++ {
+			apis[w] = apiFor(fmt.Sprintf("t%d", round*workers+w))
+		}
+		var arrived atomic.Int64
+		ready.Add(workers)
+		done.Add(workers)
+		for w := 0; w < workers; w++ {
+			go func(a public_types.APIStreamI) {
+				defer done.Done()
+				ready.Done()
+				<-start
+				// spin barrier: everybody enters the strategy within a few nanoseconds of each other
+				arrived.Add(1)
+				for spins := 0; arrived.Load() < int64(workers) && spins < 1_000_000; spins++ {
+				}
+				if limit(cs, a) {
+					admitted.Add(1)
+				}
+			}(apis[w])
+		}
+		ready.Wait()
+		close(start)
+		done.Wait()
+		h := held(cs)
+		if admitted.Load() > 1 || h > int64(max) {
+			return fmt.Sprintf("exceeded round=%d admitted=%d held=%d", round, admitted.Load(), h)
+		}
+		for _, a := range apis { // everybody ends (the refused ones as the engine does it: a drop)
+			_ = cs.Dec(a)
+		}
+		if h2 := held(cs); h2 != int64(max-1) {
+			return fmt.Sprintf("leak round=%d held=%d", round, h2)
+		}
+	}
+	return "ok"
+}
+
+// stress-churn: `workers` goroutines each run `txns` transactions (limiter; if admitted: in flight for a moment; Dec)
+// against one quota.  (a) never more than max admitted transactions in flight, (b) once all ended the set is empty,
+// (c) a full set of newcomers is admitted afterwards.  answer: ok | exceeded peak=<n> | stuck held=<h> | starved admitted=<n>
+func stressChurn(max, workers, txns int) (res string) {
+	defer func() {
+		if r := recover(); r != nil {
+			res = "panic churn"
+		}
+	}()
+	if runtime.GOMAXPROCS(0) < 4 {
+		defer runtime.GOMAXPROCS(runtime.GOMAXPROCS(4))
+	}
+	cs, stop, e := newStrategy(int64(max))
+	if e != "" {
+		return e
+	}
+	defer stop()
+	var inFlight, peak atomic.Int64
+	var done sync.WaitGroup
+	done.Add(workers)
+	for w := 0; w < workers; w++ {
+		go func(w int) {
+			defer done.Done()
+			defer func() { _ = recover() }()
+			for k := 0; k < txns; k++ {
+				a := apiFor(fmt.Sprintf("t%d", w*txns+k))
+				if limit(cs, a) {
+					n := inFlight.Add(1)
+					if h := held(cs); h > n {
+						n = h // slots held right now (a lower bound of what was held at the admission)
+					}
+					for {
+						p := peak.Load()
+						if n <= p || peak.CompareAndSwap(p, n) {
+							break
+						}
+					}
+					runtime.Gosched()
+					inFlight.Add(-1)
+				}
+				_ = cs.Dec(a)
+			}
+		}(w)
+	}
+	done.Wait()
+	if p := peak.Load(); p > int64(max) {
+		return fmt.Sprintf("exceeded peak=%d", p)
+	}
+	if h := held(cs); h != 0 {
+		return fmt.Sprintf("stuck held=%d", h)
+	}
+	n := 0
+	for k := 0; k < max; k++ {
+		if limit(cs, apiFor(fmt.Sprintf("t%d", 9000000+k))) {
+			n++
+		}
+	}
+	if n != max {
+		return fmt.Sprintf("starved admitted=%d", n)
+	}
+	return "ok"
+}
+
 func execStress(c proto.Case, o *proto.Out) []string {
 	outs := make([]string, len(c.Ops))
+	in := func(v, lo, hi int64) bool { return v >= lo && v <= hi }
 	for i, op := range c.Ops {
 		w := strings.Fields(op)
-		decs, ok1 := kvI(w, "decs")
-		ms, ok2 := kvI(w, "ms")
-		if len(w) == 0 || w[0] != "stress-incdec" || !ok1 || !ok2 || decs < 1 || decs > 16 || ms < 1 || ms > 5000 {
-			outs[i] = "bad-op"
+		outs[i] = "bad-op"
+		if len(w) == 0 {
 			continue
 		}
-		outs[i] = stressIncDec(int(decs), time.Duration(ms)*time.Millisecond)
-		o.Count("stress-" + strings.Fields(outs[i])[0])
+		switch w[0] {
+		case "stress-incdec":
+			decs, ok1 := kvI(w, "decs")
+			ms, ok2 := kvI(w, "ms")
+			if ok1 && ok2 && in(decs, 1, 16) && in(ms, 1, 5000) {
+				outs[i] = stressIncDec(int(decs), time.Duration(ms)*time.Millisecond)
+			}
+		case "stress-arrive":
+			mx, ok1 := kvI(w, "max")
+			wk, ok2 := kvI(w, "workers")
+			rd, ok3 := kvI(w, "rounds")
+			if ok1 && ok2 && ok3 && in(mx, 1, 16) && in(wk, 2, 64) && in(rd, 1, 100000) {
+				outs[i] = stressArrive(int(mx), int(wk), int(rd))
+			}
+		case "stress-churn":
+			mx, ok1 := kvI(w, "max")
+			wk, ok2 := kvI(w, "workers")
+			tx, ok3 := kvI(w, "txns")
+			if ok1 && ok2 && ok3 && in(mx, 1, 16) && in(wk, 2, 64) && in(tx, 1, 100000) {
+				outs[i] = stressChurn(int(mx), int(wk), int(tx))
+			}
+		}
+		o.Count(w[0] + "-" + strings.Fields(outs[i])[0])
 	}
 	return outs
 }
 
-func genStress(emit func(proto.Case)) {
+func genStress(emit func(proto.Case), thorough bool) {
 	for _, d := range []int{1, 4} {
 		emit(proto.Case{ID: fmt.Sprintf("stress:incdec-%d", d), Ops: []string{fmt.Sprintf("stress-incdec decs=%d ms=1500", d)}})
 	}
+	rounds, txns := 1500, 1500
+	if thorough {
+		rounds, txns = 10000, 6000
+	}
+	for _, mx := range []int{1, 2, 4} {
+		emit(proto.Case{ID: fmt.Sprintf("stress:arrive-max%d", mx), Ops: []string{fmt.Sprintf("stress-arrive max=%d workers=%d rounds=%d", mx, arriveWorkers(), rounds)}})
+	}
+	for _, mx := range []int{2, 4} {
+		emit(proto.Case{ID: fmt.Sprintf("stress:churn-max%d", mx), Ops: []string{fmt.Sprintf("stress-churn max=%d workers=32 txns=%d", mx, txns)}})
+	}
+}
+
+// as many simultaneous arrivals as can really run in parallel (at least 4, at most 16)
+func arriveWorkers() int {
+	n := runtime.NumCPU()
+	if n < 4 {
+		n = 4
+	}
+	if n > 16 {
+		n = 16
+	}
+	return n
 }
